@@ -8,7 +8,7 @@ from . import build
 
 class Body:
     __slots__ = ("j", "path", "crate", "kind", "blocks", "locals", "argc", "_succ", "_pred", "_idom", "_ipdom",
-                 "_rpo", "prog")
+                 "_rpo", "prog", "inl_ranges")
 
     def __init__(self, j, crate, prog):
         self.j = j
@@ -24,6 +24,7 @@ class Body:
         self._ipdom = None
         self._rpo = None
         self.prog = prog
+        self.inl_ranges = []
         _desugar_replace(self)
 
     # ------------------------------------------------------------ meta
@@ -468,6 +469,7 @@ def _inline_new_helpers(prog, max_depth=3):
                     nb.pop("_thread", None)
                 blk["t"] = {"k": "goto", "t": boff, "line": line}
                 prog.inlined.setdefault(c, set()).add(path)
+                body.inl_ranges.append((boff, boff + len(h.blocks), c))       # these blocks are a copy of helper c's body
                 chain.add(c)
             body._succ = body._pred = body._idom = body._ipdom = body._rpo = None
 
